@@ -150,9 +150,9 @@ def run_case(case, ctx):
 	from gambit.db.sqla import file_sessionmaker
 
 	W = Wd.get_world(ctx, case['world'], 'c11world')
-	db = W.load_db()
+	db = W.load_db(case.get('multi_set'))
 	session2 = None
-	classes = set()
+	classes = set(['second_genome_set_in_file'] if case.get('multi_set') else [])
 	try:
 		nq = len(W.query_sigs)
 		labels = case['labels']
@@ -348,7 +348,7 @@ def run_case(case, ctx):
 		os.unlink(jpath); os.unlink(apath)
 		if has_surrogate:
 			classes.add('label_from_undecodable_file_name')
-		session2 = file_sessionmaker(W.gdb_path)()
+		session2 = file_sessionmaker(os.path.join(W.dir + '.multi', case['multi_set'] + '.gdb') if case.get('multi_set') else W.gdb_path)()
 		try:
 			back2 = ResultsArchiveReader(session2).read(io.StringIO(buf.getvalue()))
 		except Exception as e:
@@ -397,7 +397,8 @@ def gen_case(draw, tier):
 	if draw(st.booleans()):
 		return {'kind': 'real', 'pretty': pretty, 'world': w, 'labels': labels, 'order': draw(st.lists(st.integers(0, 10), min_size=1, max_size=5)),
 		        'strict': draw(st.booleans()), 'chunksize': draw(st.sampled_from([1000, 1, 3, None, 1000])),
-		        'report_closest': draw(st.sampled_from([10, 1, 3, 50])), 'file_inputs': draw(st.booleans())}
+		        'report_closest': draw(st.sampled_from([10, 1, 3, 50])), 'file_inputs': draw(st.booleans()),
+		        'multi_set': draw(st.sampled_from([None, 'decoy_first', None, 'decoy_last']))}
 	items = draw(st.lists(st.fixed_dictionaries({
 		'success': st.booleans(), 'warnings': st.lists(TEXT, max_size=3), 'error': st.one_of(st.none(), TEXT),
 		'path': st.one_of(st.none(), st.text(alphabet='abc/ ü.,', min_size=1, max_size=15).map(lambda s: '/' + s)),
@@ -411,7 +412,8 @@ def gen_case(draw, tier):
 	        'dists': draw(st.lists(st.floats(0, 1, width=32), min_size=1, max_size=5)), 'f32': draw(st.sampled_from([True, True, False])),
 	        'params': [draw(st.booleans()), draw(st.sampled_from([1000, None, 1, 77])), draw(st.integers(1, 100))],
 	        'version': draw(st.one_of(st.just('1.0.1'), TEXT)), 'timestamp': ts.isoformat(),
-	        'extra': draw(st.dictionaries(TEXT, JSON_VAL, max_size=3))}
+	        'extra': draw(st.dictionaries(TEXT, JSON_VAL, max_size=3)),
+	        'multi_set': draw(st.sampled_from([None, 'decoy_first', None, 'decoy_last']))}
 
 
 from vlib.world import WORLD_THR
